@@ -313,11 +313,14 @@ impl HandshakeState {
         if byte_index + payload.len() + TAGLEN > message.len() {
             return Err(Error::Input);
         }
-        byte_index +=
-            self.symmetricstate.encrypt_and_mix_hash(payload, &mut message[byte_index..])?;
-        if byte_index > MAXMSGLEN {
+        // Refuse an oversized message *before* the payload is encrypted: otherwise the retry
+        // would encrypt a different payload under the same key and nonce.
+        let tag_len = if self.symmetricstate.has_key() { TAGLEN } else { 0 };
+        if byte_index + payload.len() + tag_len > MAXMSGLEN {
             return Err(Error::Input);
         }
+        byte_index +=
+            self.symmetricstate.encrypt_and_mix_hash(payload, &mut message[byte_index..])?;
         if self.pattern_position == (self.message_patterns.len() - 1) {
             self.symmetricstate.split(&mut self.cipherstates.0, &mut self.cipherstates.1);
         }
